@@ -1,4 +1,5 @@
 import MudProof.Properties.C12
+import MudProof.StepThm
 open Mud.C12
 #print axioms thresholds_in_order
 #print axioms clone_fields_same
@@ -9,3 +10,6 @@ open Mud.C12
 #print axioms spawn_keys_distinct
 #print axioms spawn_prefix_stable
 #print axioms spawn_fresh_after
+#print axioms Mud.StepThm.afRun_append
+#print axioms Mud.StepThm.afEnd_snoc
+#print axioms Mud.StepThm.shRun_append
